@@ -214,3 +214,44 @@ Definition check_flushlog (x : bstore * list bstep) : bool :=
 (* ---- the model's loader on a captured object map *)
 Definition check_load (x : bstore * list (Z * list Z)) : bool :=
   let '(st, obs) := x in content_eqb (store_content st) obs.
+
+(* ---- schedule explorer: the final index and the returned values of 2..3 concurrent single-pair calls
+   (insert / remove / compact) must be those of SOME sequential order of the model *)
+Fixpoint perms {A} (l : list A) : list (list A) :=
+  match l with
+  | [] => [[]]
+  | x :: r => flat_map (fun p => map (fun k => firstn k p ++ x :: skipn k p) (seq 0 (S (length p)))) (perms r)
+  end.
+
+Definition conc_res_match (m o : ores) : bool :=
+  match m, o with
+  | RBool a, RBool b => Bool.eqb a b
+  | RErr, RErr => true
+  | RCompact _ _, RCompact _ _ => true
+  | _, _ => false
+  end.
+
+Definition single_pair (o : op) : bool :=
+  match o with OInsert _ _ | ORemove _ _ | OCompact => true | _ => false end.
+
+Definition conc_case : Type := (ocase * list op * list ores * list (Z * list Z))%type.
+
+Definition check_conc (x : conc_case) : bool :=
+  let '(c, tops, tres, cont) := x in
+  let '(ov, dup, setup) := c in
+  let cfg := mkConfig ov dup in
+  if negb (forallb single_pair tops) then true
+  else
+    let r0 := fold_left (fun r o => snd (run_op cfg r o)) setup init_r in
+    let idx := combine (seq 0 (length tops)) tops in
+    existsb (fun order =>
+               let '(r, res) := fold_left (fun acc io =>
+                                             let '(r, res) := acc in
+                                             let '(out, r') := run_op cfg r (snd io) in
+                                             (r', (fst io, out) :: res)) order (r0, []) in
+               content_eqb (content (r_state r)) cont &&
+               forallb (fun ir => match find (fun jr => Nat.eqb (fst jr) (fst ir)) res with
+                                  | Some jr => conc_res_match (snd jr) (snd ir)
+                                  | None => false
+                                  end) (combine (seq 0 (length tres)) tres))
+            (perms idx).
